@@ -169,6 +169,10 @@ class CutWalker:
 
     def _call_kind(self, call, projs):
         path = call[1]
+        # string::trim_matches(s, n) is trim_end_matches(trim_start_matches(s, n), n) (C05 DLG row: start first, then the end):
+        # a cut at the front followed by a cut at the back, with the front cut written as the library function that performs it
+        if path == "konst::string::trim_matches" and not projs and len(call) == 5:
+            return prov.PREFIX, ("call", "konst::string::trim_start_matches", call[2], call[3], call[4])
         law = METHOD_LAW.get(path)
         if law and projs == [(None, PARSER_FIELDS.get("str"))] and len(call) > 3:
             return (prov.SUFFIX if law == "front" else prov.PREFIX), sym.mk_field(call[3], PARSER_FIELDS["str"])
